@@ -23,12 +23,17 @@ int vsnprintf(char *str, size_t size, const char *fmt, va_list ap) { (void)fmt; 
 /* environment of peer.c */
 static int verif_art_ret;
 int add_routing_table(struct peer *p) { (void)p; return verif_art_ret; }
-void delete_routing_table(struct peer *p) { (void)p; }
-void remove_routing_info_from_peer(const struct peer *p) { (void)p; }
-void remove_peer_from_routing_table(const struct peer *p, const struct peer *r) { (void)p; (void)r; }
-void remove_all_fetchers_from_peer(struct peer *p) { (void)p; }
-void remove_all_elements_from_peer(struct peer *p) { (void)p; }
-void cjet_free(void *p) { free(p); }
+/* teardown steps are recorded in call order */
+enum { S_ROUTING_INFO = 1, S_OTHER_TABLES, S_FETCHERS, S_ELEMENTS, S_DELETE_TABLE };
+static int verif_step[8]; static unsigned verif_steps; static const struct peer *verif_step_peer[8]; static const struct peer *verif_step_arg[8];
+static void rec(int s, const struct peer *p, const struct peer *arg) { if (verif_steps < 8) { verif_step[verif_steps] = s; verif_step_peer[verif_steps] = p; verif_step_arg[verif_steps] = arg; } verif_steps++; }
+void delete_routing_table(struct peer *p) { rec(S_DELETE_TABLE, p, NULL); }
+void remove_routing_info_from_peer(const struct peer *p) { rec(S_ROUTING_INFO, p, NULL); }
+void remove_peer_from_routing_table(const struct peer *p, const struct peer *r) { rec(S_OTHER_TABLES, p, r); }
+void remove_all_fetchers_from_peer(struct peer *p) { rec(S_FETCHERS, p, NULL); }
+void remove_all_elements_from_peer(struct peer *p) { rec(S_ELEMENTS, p, NULL); }
+static unsigned verif_frees;
+void cjet_free(void *p) { verif_frees++; free(p); }
 char *duplicate_string(const char *s) { (void)s; return NULL; }
 
 /* init_peer from arbitrary (uninitialised) memory, as handed out by a non-zeroing allocator */
@@ -65,4 +70,31 @@ void h_peer_log(void)
 	if (nondet_bool()) log_peer_err(&p, "message %s\n", "x"); else log_peer_info(&p, "message %s\n", "x");
 	VERIF_COVER(verif_printf_len == 99, "name fills the buffer");
 	VERIF_COVER(verif_printf_len == 7, "short name");
+}
+
+/* free_peer_resources: every trace of the peer goes, in the order that keeps the remaining peers consistent:
+ * answer the requests routed to it, drop its own requests from every peer's table, end its fetches BEFORE its
+ * elements disappear (so that no "remove" event is addressed to the leaving peer), then unlink it. */
+void h_peer_teardown(void)
+{
+	struct peer a, b;
+	struct eventloop loop;
+	verif_art_ret = 0;
+	int r1 = init_peer(&a, false, &loop), r2 = init_peer(&b, false, &loop);
+	__CPROVER_assume(r1 == 0 && r2 == 0);
+	bool named = nondet_bool(), authed = nondet_bool();
+	if (named) { a.name = malloc(2); __CPROVER_assume(a.name != NULL); a.name[0] = 'n'; a.name[1] = 0; }
+	if (authed) { a.user_name = malloc(2); __CPROVER_assume(a.user_name != NULL); a.user_name[0] = 'u'; a.user_name[1] = 0; }
+	int n0 = number_of_peers;
+	free_peer_resources(&a);
+	__CPROVER_assert(verif_steps == 6, "C05.teardown.all-steps-run-once");
+	__CPROVER_assert(verif_step[0] == S_ROUTING_INFO && verif_step_peer[0] == &a, "C05.teardown.requests-routed-to-the-peer-are-answered-first");
+	__CPROVER_assert(verif_step[1] == S_OTHER_TABLES && verif_step[2] == S_OTHER_TABLES && verif_step_arg[1] == &a && verif_step_arg[2] == &a &&
+		((verif_step_peer[1] == &a && verif_step_peer[2] == &b) || (verif_step_peer[1] == &b && verif_step_peer[2] == &a)), "C05.teardown.own-requests-dropped-from-every-peers-table");
+	__CPROVER_assert(verif_step[3] == S_FETCHERS && verif_step_peer[3] == &a && verif_step[4] == S_ELEMENTS && verif_step_peer[4] == &a, "C05.teardown.fetches-end-before-elements-disappear");
+	__CPROVER_assert(verif_step[5] == S_DELETE_TABLE && verif_step_peer[5] == &a, "C05.teardown.routing-table-released-last");
+	__CPROVER_assert(number_of_peers == n0 - 1 && peer_list.next == &b.next_peer && peer_list.prev == &b.next_peer, "C05.teardown.peer-unlinked-others-stay");
+	__CPROVER_assert(verif_frees == (named ? 1u : 0u) + (authed ? 1u : 0u), "C07.teardown.names-released");
+	VERIF_COVER(named && authed, "named authenticated peer");
+	VERIF_COVER(!named && !authed, "anonymous peer");
 }
